@@ -11,7 +11,7 @@
    the five escaped bytes — known finding pattern-value-not-unescaped; no blank at either end unless preserve_whitespace —
    known finding encoded-edge-blank-lost; escaped length within max_length); content fitting the content mode
    (Characters: one value; Mixed: no two adjacent text items; otherwise sub-elements only); text items not blank; the
-   parser's lookups pass; SHORT-NAME as the FIRST content item where named (parser fix 44e5d22).
+   parser's lookups pass; SHORT-NAME as the FIRST content item where named (parser fix f86b268).
    Comments are covered: a comment is UTF-8 and CommentOk (the lexer finds its end where the writer put it).
    The first half of C01_full, "what the loader returns is canonical", is false on the recorded classes
    (C01_reload_identity_refuted) and PROVED outside them: C01_loader_canonical, with the decidable tree predicate
